@@ -92,7 +92,9 @@ def c11(run):
                 "replayed under block embeddings with class_of_char on first/last/interior of every block and "
                 "interval_cover/class_of_set/good_char_set on every block-aligned query set plus sets starting or "
                 "ending inside a block; plus seeded random partitions of <= 12 real intervals with queries on all "
-                "end point +-1 pairs and full-alphabet scans; non-trivial = distinct record with >= 2 intervals")
+                "end point +-1 pairs and full-alphabet scans; long partitions (up to 300 intervals), long scrambled lists with "
+                "one overlap, iterator kinds, queries between pushes, partitions cut at every pair / window of 22 landmark "
+                "code points; non-trivial = distinct record with >= 2 intervals")
     run.assumptions = list(PART_ASSUME)
     run.model("MC_CoverSearch", "MC_CoverSearch_full.cfg" if run.tier == "thorough" else "MC_CoverSearch.cfg",
               workers=workers(run), timeout=1500,
@@ -124,7 +126,8 @@ def c12(run):
     run.rule = ("cases = merge_partitions on ordered pairs of the TLC-generated partitions of 0..6 (quick: every 40th "
                 "pair; thorough: all 372100) under block embeddings, merge_partition_list on all permutations of "
                 "triples from a reduced set, [] and the neutral element, lists of every length 0..20, 31..33, 64, 65 in which "
-                "each partition has a boundary of its own, long-vs-short merges, plus seeded random real partitions; "
+                "each partition has a boundary of its own, look-alike list neighbours, long-vs-short merges, plus seeded random "
+                "real partitions; "
                 "obligations (a)-(e) of DESIGN 5 C12 and the literal reading (f) with structural identification of "
                 "the representation finding; non-trivial = distinct record whose operands are both non-empty")
     run.assumptions = list(PART_ASSUME)
@@ -192,7 +195,8 @@ def c13(run):
                 "labels of 0..2 (state 0: up to 2 (3 thorough) transitions in every order + default (possibly "
                 "overridden); state 1: small completion; final flags; state 2 as target only), each ending with build, "
                 "replayed under block embeddings; plus seeded random sequences over real code points with holes, "
-                "overlaps and shuffled call order; verdict classes MustReject / MustAccept / Either and, on Ok, initial "
+                "overlaps and shuffled call order, builder reuse, repeated calls, tilings in every order, many labels / "
+                "states, one label between every pair of 22 landmark code points; verdict classes MustReject / MustAccept / Either and, on Ok, initial "
                 "state, finals, counters and next(state, x) = SpecDelta(state, x) for every region representative; "
                 "non-trivial = distinct behaviour with >= 2 transitions")
     run.assumptions = list(AUT_ASSUME)
@@ -303,7 +307,8 @@ def c14(run):
                 "result: combined_char_partition groups only characters with equal successors in every state, "
                 "pick_alphabet has one character per class in class order, every cell of compile_successors equals "
                 "next, edges/final_states/num_states/num_final_states agree with next; char_set_next on sets relative "
-                "to the ranges; non-trivial = distinct record whose input has an unreachable state or >= 3 states")
+                "to the ranges; accepts(w) on whole words = stepping through next (every word of length 1, length 2 over four "
+                "representatives, length 3 over two); non-trivial = distinct record whose input has an unreachable state or >= 3 states")
     run.assumptions = list(AUT_ASSUME)
     out, out2 = _dfa_traces(run, "C14")
     nt = lambda r: r.get("op") == "prune" and (len(r["after"]["final"]) < len(r["before"]["final"]) or len(r["before"]["final"]) >= 3)
@@ -339,7 +344,8 @@ def c06(run):
     run.rule = ("cases = every call of str_concat/len/at/substr/prefixof/suffixof/contains/indexof/replace/replace_all "
                 "with subjects of length <= 4 and patterns <= 2 (3 thorough) over {a,b}, replacements {eps,a,ba}, "
                 "integer arguments {i32::MIN,-2,-1,0..len+2,i32::MAX-1,i32::MAX}; plus seeded random strings <= 12 over "
-                "real code points (0, 0xFFFF/0x10000, 0x2FFFF) with patterns cut from the subject; oracle: SMT-LIB "
+                "real code points (0, 0xFFFF/0x10000, 0x2FFFF) with patterns cut from the subject; long, periodic, anti-hash, "
+                "rich-alphabet and heavy subjects (code points adding up to 2^32); oracle: SMT-LIB "
                 "definitions in SmtStrings.tla; non-trivial = distinct record with non-empty subject and pattern")
     run.assumptions = ["small scope: the functions compare characters only for equality, so two letters and lengths <= 4 "
                        "reach every overlap/boundary case; not a proof over all strings"]
@@ -416,7 +422,8 @@ def c17(run):
 def c08(run):
     run.rule = ("cases = parse_smt_literal on every text of length <= 4 (5 thorough) over {\\,u,{,},0,3,f,g}, on the "
                 "escape-attempt family (\\u, optional {, 0..5(6) digits from {0,2,3,F}, optional }, small contexts), braces "
-                "at every position of an attempt, two consecutive attempts, long texts and "
+                "at every position of an attempt, two consecutive attempts, every printable ASCII character after a backslash, "
+                "well-formed escapes swept over the alphabet (landmarks + stride; every code point thorough), long texts and "
                 "on seeded random texts with non-ASCII characters -- EVERY PREFIX of each text is parsed, binding each "
                 "transition of the LiteralParser state machine; Display of every string <= 2 (3) over 13 content symbols, "
                 "of content spelling escape sequences, of random strings, and Display/smt_char_as_string/char_to_smt of "
@@ -683,7 +690,8 @@ def c19(run):
 @check("C16")
 def c16(run):
     run.rule = ("cases = ordered pairs: all pairs of 14 factors, random concatenations of <= 4 factors on each side "
-                "(with complement/union/intersection wrappers), widening pairs, sub-term pairs of random programs; "
+                "(with complement/union/intersection wrappers), widening pairs, sub-term pairs of random programs, "
+                "singleton / min-length / loop-vs-nested-loop pairs, one element of a rigid run repeated at every position; "
                 "whenever included_in answers true TLC decides L(r) subset L(s) exactly (emptiness of r & ~s by "
                 "closure); false answers are not judged; non-trivial = distinct pair answered true with r != s, "
                 "r not none, s not all")
